@@ -18,7 +18,7 @@ func appendJSONMarshaler(fi *finfo, buf []byte, rv reflect.Value, addr uintptr, 
 }
 
 func appendJSONMarshalerAddr(fi *finfo, buf []byte, rv reflect.Value, addr uintptr, safe bool) ([]byte, any, appendStatus) {
-	v := rv.FieldByIndex(fi.index).Addr().Interface()
+	v := addrOf(rv.FieldByIndex(fi.index)).Interface()
 	buf = append(buf, fi.jkey...)
 	return appendJSONMarshalerVal(buf, v)
 }
